@@ -22,7 +22,8 @@ Definition dec_att0 (_ : tok) (c : code) : option attempt := match c with CAtt a
 Inductive cop :=
 | CCreate (p : plan)
 | CKilledCreate (p : plan)        (* Create in a child process that was killed at a random instant *)
-| CCreateStage (n : nat) (p : plan)   (* cosmosdb Create with an injected fault: 0 = plan batch fails, 1 = search batch fails *)
+| CCreateStage (n : nat) (p : plan)   (* cosmosdb Create with an injected fault: 0 = plan batch fails, 1 = search batch fails,
+                                         3 = ReadItem fails with a non-404 error (the Exists pre-check) *)
 | CDeleteStage (n : nat) (id : uid)   (* cosmosdb Delete with an injected fault: 0 = plan batch fails *)
 | CUpdatePlan (id : uid) (rs : reason) (st : state) (sub : Z)
 | CUpdateBlock (pid id : uid) (st : state)
@@ -72,6 +73,7 @@ Definition cosmos_vault : vault :=
   {| v_st := cdb; v_init := ([], []);
      v_step := fun x => match x with
                         | XOp o => CosmosModel.step enc_req0 dec_req0 enc_att0 dec_att0 o
+                        | XCreateStage 3 p => CosmosModel.create_readerr p
                         | XCreateStage n p => CosmosModel.create_stage enc_req0 dec_req0 enc_att0 dec_att0 n p
                         | XDeleteStage n id => CosmosModel.delete_stage dec_req0 dec_att0 n id
                         end;
